@@ -332,8 +332,13 @@ def rule_layout_lookup(ctx, sch, rule):
             return False
         lc = rets[0].value
         g = lc.generators[0]
-        return len(lc.generators) == 1 and not g.ifs and isinstance(lc.elt, ast.Call) and norm(lc.elt.func) == inner.name and \
-            len(lc.elt.args) == 1 and isinstance(lc.elt.args[0], ast.Starred) and norm(lc.elt.args[0].value) == norm(g.target)
+        if not (len(lc.generators) == 1 and not g.ifs and isinstance(lc.elt, ast.Call) and norm(lc.elt.func) == inner.name and not lc.elt.keywords):
+            return False
+        # f(*pair) for pair in pairs   or, unpacked,   f(a, b) for a, b in pairs
+        if len(lc.elt.args) == 1 and isinstance(lc.elt.args[0], ast.Starred) and norm(lc.elt.args[0].value) == norm(g.target):
+            return True
+        return isinstance(g.target, ast.Tuple) and all(isinstance(t, ast.Name) for t in g.target.elts) and \
+            [norm(a) for a in lc.elt.args] == [t.id for t in g.target.elts] and len(g.target.elts) == len(inner.params)
     flows = [norm(r.value) for w in (wrap_h, wrap_o) for r in w.own_nodes() if isinstance(r, ast.Return)]
     ctx.check(wrap_h is not lu and wrap_o is not lu and starred_map(wrap_h, lh) and starred_map(wrap_o, lo), rule,
               ctx.key(lu, None, 'pair flow'), 'the (hashX, suffix) pairs flow position by position into the value lookup',
@@ -421,30 +426,40 @@ def rule_unspendable(ctx):
     for qual in ('BlockProcessor.advance_block', 'BlockProcessor.backup_block'):
         f = ctx.func('bp', qual)
         cfg = ctx.cfg(f)
+        # the selection is decided per path through the function's preamble, so a conditional expression, an if/else
+        # and any other spelling of the choice read the same
+        from .. import paths as P
+        pre = []
+        for st_ in f.node.body:
+            if isinstance(st_, (ast.With, ast.AsyncWith, ast.For, ast.While)):
+                break
+            pre.append(st_)
         s = unspendable_choice(ctx, f)
-        ok, why = False, 'predicate selection not found'
-        if s is not None:
-            t = s.value.test
-            d = df.defs(f)
-
-            def subst(e):
-                if isinstance(e, ast.Name) and len(d.get(e.id, [])) == 1 and isinstance(d[e.id][0][0], ast.Assign):
-                    return d[e.id][0][1]
-                return e
-            if isinstance(t, ast.Compare) and len(t.ops) == 1:
-                t2 = ast.Compare(left=subst(t.left), ops=t.ops, comparators=[subst(t.comparators[0])])
-                cn = q.comparison_normal(ctx, f, t2)
-                ok = cn is not None and cn[1] == '>=' and q.lin_eq(cn[0], {'block.height': 1, 'self.coin.GENESIS_ACTIVATION': -1, '': 0}) \
-                    and norm(s.value.body) == 'is_unspendable_genesis'
-                why = f'`{norm(t)}` selects {norm(s.value.body)}'
-                forms.append(q.lin_text(cn[0]) + ' ' + cn[1] if cn else norm(t))
+        ok, why, pv_name = False, 'predicate selection not found', None
+        sel = {}
+        for pth in P.paths(pre):
+            if pth.exit != 'fall':
+                continue
+            for k_, v_ in pth.env.items():
+                if isinstance(v_, ast.Name) and v_.id in ('is_unspendable_genesis', 'is_unspendable_legacy'):
+                    sel.setdefault(k_, []).append((P.decided(ctx, f, pth, 'block.height >= self.coin.GENESIS_ACTIVATION'), v_.id))
+        if len(sel) == 1:
+            pv_name, got = list(sel.items())[0]
+            ok = len(got) >= 2 and all((d_ is True and v_ == 'is_unspendable_genesis') or (d_ is False and v_ == 'is_unspendable_legacy') for d_, v_ in got)
+            why = f'{sorted(set((str(d_), v_) for d_, v_ in got))}'
+            if ok:
+                forms.append('block.height >= GENESIS_ACTIVATION')
+            else:
+                forms.append(why)
+        if s is None:
+            s = next((x for x in f.own_nodes() if isinstance(x, ast.Assign) and isinstance(x.targets[0], ast.Name) and x.targets[0].id == pv_name), None)
         ctx.check(ok, 'C01.UNSPENDABLE', ctx.key(f, s, 'predicate by block height'),
                   'the genesis rule applies exactly to blocks with height >= GENESIS_ACTIVATION (the block\'s own height)',
                   'the unspendable predicate is not selected by block.height >= GENESIS_ACTIVATION: ' + why +
                   ' (outputs around the activation height are mis-classified)', loc=ctx.loc(f, s or f.node))
         n += 1
         # skip precedes any UTXO state change in the output loop
-        pv = norm(s.targets[0]) if s is not None else 'is_unspendable'
+        pv = pv_name or 'is_unspendable'
         txl = c03.tx_loop(ctx, f)
         _in, txv = c03.input_loop(ctx, f, txl)
         ol = c03.output_loop(ctx, f, txl, txv)
